@@ -704,3 +704,12 @@ Example ex_linearize :
    EBackup 12; ENote 1 8 false false 3;
    EForward 4; EDivisions 6; ENote 7 6 false false 1; EForward 6].
 Proof. vm_compute. reflexivity. Qed.
+
+Lemma chord_tags_consistent_lemma : forall l, chord_ok None (tag_chords None l).
+Proof. intros l. apply tag_chords_ok. exact I. Qed.
+
+Lemma rvp_preserves_notes_lemma : forall ns,
+  Permutation (flat_map snd (rvp (partition_voices ns))) ns.
+Proof.
+  intros ns. eapply Permutation_trans; [apply rvp_perm | apply partition_perm].
+Qed.
